@@ -25,14 +25,17 @@ Record params := { p_cbmat : Z; p_bindlock : Z }.
 Definition oclass_code (c : oclass) : N :=
   match c with CStd => 0 | CStaking _ => 1 | CBindingOld => 2 | CBindingNew => 3 | CUnsupported => 9 end%N.
 
-(* PkScript.Maturity(): staking = frozen + 1, new binding = locked period, else 0 *)
+(* PkScript.Maturity(): staking = frozen + 1, new binding = locked period, else 0;
+   a coinbase output additionally needs the coinbase maturity (AddCredits, after the repair
+   recorded in KNOWN_FINDINGS.txt: a coinbase paying a staking/binding script keeps the longer lock) *)
+Definition script_maturity (p : params) (c : oclass) : Z :=
+  match c with
+  | CStaking f => f + 1
+  | CBindingNew => p_bindlock p
+  | _ => 0
+  end.
 Definition maturity_of (p : params) (cb : bool) (c : oclass) : Z :=
-  if cb then p_cbmat p
-  else match c with
-       | CStaking f => f + 1
-       | CBindingNew => p_bindlock p
-       | _ => 0
-       end.
+  if cb then Z.max (p_cbmat p) (script_maturity p c) else script_maturity p c.
 
 (* ---------------------------------------------------------------- wallet side *)
 
